@@ -34,12 +34,12 @@ Fixpoint rev_map_acc {A B} (f : A -> B) (l : list A) (acc : list B) : list B :=
 Definition tmap {A B} (f : A -> B) (l : list A) : list B := rev_append (rev_map_acc f l []) [].
 
 (* [mapM] for option, tail recursive: [None] as soon as one item fails *)
-Fixpoint omap_acc {A B} (f : A -> option B) (l : list A) (acc : list B) : option (list B) :=
+Fixpoint all_some_acc {A B} (f : A -> option B) (l : list A) (acc : list B) : option (list B) :=
   match l with
   | [] => Some (rev_append acc [])
-  | x :: r => match f x with Some y => omap_acc f r (y :: acc) | None => None end
+  | x :: r => match f x with Some y => all_some_acc f r (y :: acc) | None => None end
   end.
-Definition omap {A B} (f : A -> option B) (l : list A) : option (list B) := omap_acc f l [].
+Definition all_some {A B} (f : A -> option B) (l : list A) : option (list B) := all_some_acc f l [].
 
 (* option bind *)
 Definition obind {A B} (o : option A) (k : A -> option B) : option B :=
@@ -119,10 +119,10 @@ Definition msource_eqb (a b : msource) : bool := msource_idx a =? msource_idx b.
 (* ---- images --------------------------------------------------------------- *)
 
 (* wgpu TextureDimension *)
-Inductive dimension := D1 | D2 | D3.
-Definition dimension_idx (d : dimension) : N := match d with D1 => 0 | D2 => 1 | D3 => 2 end.
+Inductive dimension := Dim1 | Dim2 | Dim3.
+Definition dimension_idx (d : dimension) : N := match d with Dim1 => 0 | Dim2 => 1 | Dim3 => 2 end.
 Definition dimension_eqb (a b : dimension) : bool := dimension_idx a =? dimension_idx b.
-Definition all_dimensions : list dimension := [D1; D2; D3].
+Definition all_dimensions : list dimension := [Dim1; Dim2; Dim3].
 
 (* fields of `struct ImageData` (image_serde.rs) *)
 Inductive ifield := I_width | I_height | I_depth_or_array_layers | I_dimensions | I_format | I_data.
